@@ -357,6 +357,32 @@ def run_broken(out, binp, rng, hi):
         s = Sess(out, port)
         st, h, _ = s.call("i=1 op=av", 'POST', f'/v1/client/add-version/{NIL}', [('Content-Type', HS_CT), ('X-Client-Id', c)], b'A')
         v = h.get('x-version-id', NIL)
+        # well-formed requests whose TARGET is not an absolute path (RFC 9112 asterisk-form, absolute-form, a relative
+        # reference): they reach the application's routing, so their answers are "responses from every route" too
+        import socket as _socket
+        def raw(method, target):
+            k_ = f"{method} {target} HTTP/1.1\r\nHost: 127.0.0.1\r\nConnection: close\r\n\r\n".encode()
+            so = _socket.create_connection(('127.0.0.1', port), timeout=5); so.sendall(k_)
+            buf = b''
+            while True:
+                d = so.recv(65536)
+                if not d: break
+                buf += d
+            so.close()
+            head, _, body = buf.partition(b'\r\n\r\n')
+            lines = head.decode('latin-1').split('\r\n')
+            stt = int(lines[0].split()[1]) if lines and len(lines[0].split()) > 1 and lines[0].split()[1].isdigit() else 0
+            hh = {l.split(':', 1)[0].strip().lower(): l.split(':', 1)[1].strip() for l in lines[1:] if ':' in l}
+            return stt, hh, body
+        kk = 100
+        for (meth, target) in [('OPTIONS', '*'), ('GET', 'nothing'), ('GET', f'http://127.0.0.1:{port}/v1/client/snapshot'), ('GET', '//'), ('OPTIONS', '/v1/client/snapshot'), ('GET', '/v1/client/%2e%2e/x')]:
+            kk += 1
+            out.write(f"# i={kk} op=rawtarget\n")
+            try:
+                stt, hh, data = raw(meth, target)
+                out.write('x' + req_line(meth, target, [], b'', '-', int(time.time())) + ' => ' + obs_line(stt, hh, data) + '\n')
+            except Exception as e:
+                out.write('x' + req_line(meth, target, [], b'', '-', int(time.time())) + f' => noanswer:{type(e).__name__}\n')
         how = rng.choice(['garbage', 'truncate', 'directory'])
         for f in os.listdir(datadir):
             fp = os.path.join(datadir, f)
